@@ -527,3 +527,10 @@ def c07_bool_in_iterable(rec, params):
             return False
         return t[0] == 'I' and float(int(s[1])) == float(int(t[1]))
     return bool(bad) and all(bool_to_number(s, t) or big_with_bool(s, t) for s, t in bad)
+
+
+@classifier
+def c18_iter_tuple_processes(rec, params):
+    '''iter_tuple / iter_tuple_items through a process pool: the per-call namedtuple class ("Axis") cannot be pickled, every such call raises PicklingError'''
+    case = rec.get('case') or {}
+    return rec.get('clause') == 'spurious_error' and str(case.get('iface', '')).startswith('Frame.iter_tuple') and case.get('pool') == 'processes'
